@@ -404,9 +404,34 @@ def _keep_one_idiom(b, R, cfg, bb, args):
                 continue
             if any(cfg.reaches(i, pb) and not cfg.dominates(sb, i) and _same_iteration(cfg, i, pb) for i in incs for pb in pushes):
                 continue
+            # the kept node must itself be expanded: the popped entry is pushed onto the traversal worklist on every path from the pop
+            sched = False
+            for pb2, pt2 in b.calls_to('Vec::push'):
+                a2 = R.call_args(pb2)
+                if s(a2[0]) == s(V):
+                    continue
+                if any(is_call(x, 'Vec::pop') and s(x[2][0]) == s(V) for x in walk(a2[1])):
+                    some = [e2 for e2 in cfg.succ.get(_switch_after_call(b, pops[0]), []) if isinstance(e2, tuple) and cfg.edge_label[e2] == ('sw', (1,))]
+                    if some and all(not cfg.reaches(e2, bb, avoid=[pb2]) for e2 in some):
+                        sched = True
+            if not sched:
+                return None
             return ('keep-one idiom: removals are drawn from a queue; if the kept-children counter %s is 0 one queue entry is popped '
-                    '(kept) before the removal loop, so p never loses its last child' % fmt(var))
+                    '(kept) before the removal loop and scheduled for expansion, so p never loses its last child and the kept child is completed' % fmt(var))
     return None
+
+
+def _switch_after_call(b, bb):
+    n = bb
+    for _ in range(6):
+        t = b.blocks[n]['term']
+        if t['k'] == 'switch':
+            return n
+        if t.get('target') is not None:
+            n = t['target']
+        else:
+            break
+    return n
 
 
 def _same_iteration(cfg, a, b):
